@@ -60,7 +60,7 @@ func runC19(p *core.Prog, r *core.Result) {
 		return
 	}
 	fields := append(tomlFields(p, "Config"), tomlFields(p, "RequirementConfig")...)
-	r.Floor("R19.1", len(fields), 6, "toml-tagged configuration fields")
+	r.Floor("R19.1", len(fields), 3, "toml-tagged configuration fields")
 
 	// formatted emissions: calls (in w or its closures) whose first argument is a constant format string with %v verbs
 	type emit struct {
@@ -95,7 +95,7 @@ func runC19(p *core.Prog, r *core.Result) {
 			}
 		}
 	}
-	r.Floor("R19.1", len(emits), 4, "formatted emissions in WriteConfigFile")
+	r.Floor("R19.1", len(emits), 2, "formatted emissions in WriteConfigFile")
 	fieldsOf := func(v ssa.Value) map[string]bool {
 		out := map[string]bool{}
 		for x := range core.BackwardSlice(v, core.SliceOpts{Stores: true, ThroughCall: func(*ssa.Call) bool { return true }}) {
@@ -229,13 +229,20 @@ func runC19(p *core.Prog, r *core.Result) {
 					if isEnc(core.Unwrap(edge)) {
 						continue
 					}
-					// raw edge: must carry the fact "quoting test is false"
+					// every edge that is not the encoder's output must be the untouched name on the edge where the
+					// quoting test is false
+					guarded := false
 					for f := range efs[j] {
 						if !f.Val && quotingTest(f.Cond, plain) {
-							rawGuarded = true
+							guarded = true
 						}
 					}
-					if !rawGuarded {
+					if _, isCall := core.Unwrap(edge).(*ssa.Call); isCall {
+						guarded = false // produced by some other function than the TOML encoder
+					}
+					if guarded {
+						rawGuarded = true
+					} else {
 						okPhi = false
 					}
 				}
@@ -257,10 +264,56 @@ func runC19(p *core.Prog, r *core.Result) {
 					continue
 				}
 			}
+			// a key-encoding helper: every return is encodeValue(param), or the param itself where the quoting test is
+			// false and the name is non-empty
+			if hc, isCall := v.(*ssa.Call); isCall {
+				if h := core.Callee(hc); h != nil && core.InModule(h) && h.Blocks != nil && len(h.Params) == 1 && len(hc.Call.Args) == 1 {
+					hp := h.Params[0]
+					okAll, bare, bareNonEmpty := true, false, true
+					for _, hr := range core.ReturnsOf(h) {
+						hv := core.RetVals(hr)
+						if len(hv) != 1 {
+							okAll = false
+							continue
+						}
+						rv := core.Unwrap(hv[0])
+						if c, ok := rv.(*ssa.Call); ok && core.Callee(c) == enc && core.Unwrap(c.Call.Args[0]) == ssa.Value(hp) {
+							continue
+						}
+						if rv == ssa.Value(hp) {
+							bare = true
+							plainOnly, nonEmpty := false, false
+							for f := range p.FactsAt(hr) {
+								if !f.Val && quotingTest(f.Cond, plain) {
+									plainOnly = true
+								}
+								if emptyTest(f.Cond, f.Val, hp) {
+									nonEmpty = true
+								}
+							}
+							if !plainOnly {
+								okAll = false
+							}
+							if !nonEmpty {
+								bareNonEmpty = false
+							}
+							continue
+						}
+						okAll = false
+					}
+					if okAll {
+						r.OK("R19.3", construct, p.InstrPos(e.call.(ssa.Instruction)), "written through %s, which returns encodeValue(x) or, for plain names only, x itself", fname(h))
+						if bare {
+							r.Check(bareNonEmpty, "R19.3", construct+":non-empty-bare-key", p.InstrPos(e.call.(ssa.Instruction)), "a bare key is written only for a non-empty name", "an empty requirement name is written bare (` = {path = …}`), which is not valid TOML: a configuration that loads (key \"\") is rewritten into a file that does not load")
+						}
+						continue
+					}
+				}
+			}
 			r.Bad("R19.3", construct, p.InstrPos(e.call.(ssa.Instruction)), "a configuration value is formatted without going through the TOML encoder: quotes, backslashes or control characters in it corrupt the file")
 		}
 	}
-	r.Floor("R19.3", nVals, 5, "configuration values written")
+	r.Floor("R19.3", nVals, 2, "configuration values written")
 	// isPlainRune accepts only bare-key characters
 	allowed := map[int64]bool{'A': true, 'Z': true, 'a': true, 'z': true, '0': true, '9': true, '_': true, '-': true}
 	okPlain := true
